@@ -77,6 +77,7 @@ func (r *runState) runUnit(u *unit) {
 		what string
 		cs   Case
 	}
+	failedSig := map[string]string{}
 	for _, in := range u.inputs {
 		var w *want
 		if sp.skipUnit == "" {
@@ -108,6 +109,16 @@ func (r *runState) runUnit(u *unit) {
 					sawF[fi] = true
 				}
 				c.Outcome(fmt.Sprintf("%s:%s:%v:%d:%v", cs.Mode, cs.Op, o.Res, len(o.Caps), o.Neg))
+				if sig != "" && sp.parts != nil {
+					key := func(in string) string { return fmt.Sprint(fi, capOn, "|", in) }
+					for _, part := range sp.parts(in) {
+						if s, ok := failedSig[key(part)]; ok {
+							sig = s
+							break
+						}
+					}
+					failedSig[key(in)] = sig
+				}
 				if sig != "" {
 					if fails == nil {
 						fails = map[string][]fail{}
@@ -161,7 +172,11 @@ func judgeWith(cs *Case, sp *spec, w *want, o *Obs) (skip, sig, what string) {
 		return "", cs.Op + ":constructor-rejects-documented-argument", fmt.Sprintf("%s\n  the operator could not be built: %s\n  expected: %s", cs, o.BuildErr, w.text)
 	}
 	if o.Rule && o.Res == o.Neg {
-		return "", "negation:not-the-complement:" + cs.Op, fmt.Sprintf("%s\n  rule `@%s` fired=%v and rule `!@%s` fired=%v on the same input: `!` is not the complement", cs, cs.Op, o.Res, cs.Op, o.Neg)
+		form := ""
+		if cs.Form != "" {
+			form = ":" + cs.Form + "-form"
+		}
+		return "", "negation:not-the-complement:" + cs.Op + form, fmt.Sprintf("%s\n  rule `@%s` fired=%v and rule `!@%s` fired=%v on the same input: `!` is not the complement", cs, cs.Op, o.Res, cs.Op, o.Neg)
 	}
 	ok, reason := w.accept(cs, o)
 	if ok {
